@@ -389,9 +389,9 @@ Qed.
 
 (* the two hypotheses on the simplification component *)
 Hypothesis simp_sound : forall FI M f, cvalid FI M (simp_classic f) <-> cvalid FI M f.
-Hypothesis simp_roles : forall ins outs p m D,
+Hypothesis simp_roles : forall ins outs occ p m D,
   completion (rp_theory m (tau_star p)) ins = Some D ->
-  forall f, In f (D ++ missing_output_definitions outs D) -> head_predicate (simp_classic f) = head_predicate f.
+  forall f, In f (D ++ missing_output_definitions outs occ D) -> head_predicate (simp_classic f) = head_predicate f.
 
 Lemma annot_map_sim a : annot_sim (annot_map simp_classic a) a.
 Proof. split; [reflexivity|]. split; [reflexivity|]. intros FI M. apply simp_sound. Qed.
@@ -400,13 +400,14 @@ Proof. split; [reflexivity|]. split; [reflexivity|]. intros FI M. apply simp_sou
    directions, equivalent formulas *)
 Lemma translate_sim t t' p th th' :
   et_user_guide t = et_user_guide t' ->
+  task_occurring_predicates t = task_occurring_predicates t' ->
   translate t (task_m t) p = Some th -> translate t' (task_m t') p = Some th' ->
   Forall2 annot_sim (control_translate (task_public t) th) (control_translate (task_public t') th').
 Proof.
-  intros Eu. unfold theory_translate, task_m, task_public. rewrite <- Eu.
+  intros Eu Eoc. unfold theory_translate, task_m, task_public. rewrite <- Eu, <- Eoc.
   destruct (completion _ _) as [D|] eqn:HD; [|discriminate]. cbv zeta. intros [= <-] [= <-].
-  pose proof (simp_roles _ (ug_output_predicates (et_user_guide t)) _ _ _ HD) as Hr.
-  set (D' := D ++ missing_output_definitions (ug_output_predicates (et_user_guide t)) D) in *.
+  pose proof (simp_roles _ (ug_output_predicates (et_user_guide t)) (task_occurring_predicates t) _ _ _ HD) as Hr.
+  set (D' := D ++ missing_output_definitions (ug_output_predicates (et_user_guide t)) (task_occurring_predicates t) D) in *.
   unfold control_translate.
   destruct (et_simplify t), (et_simplify t'); try apply annot_sim_refl_list.
   - rewrite (control_translate_from_map simp_classic _ D' Hr).
@@ -441,6 +442,9 @@ Proof.
   destruct (side_left t') as [lft'|] eqn:EL'; [|discriminate].
   destruct (side_right t') as [rgt'|] eqn:ER'; [|discriminate].
   assert (Em : task_m t = task_m t') by (unfold task_m; rewrite Eu; reflexivity).
+  (* the flags do not change which predicates occur in the task (/repo 18b2e85) *)
+  assert (Eoc : task_occurring_predicates t = task_occurring_predicates t').
+  { unfold task_occurring_predicates. rewrite Es, Ep. reflexivity. }
   assert (Er : task_renaming t = task_renaming t').
   { unfold task_renaming, task_spec_private, task_prog_private. rewrite Es, Ep, Eu. reflexivity. }
   rewrite <- Eu, <- Em, <- Eo in Hv'.
